@@ -42,6 +42,7 @@ def check_config(ctx, cfg):
     except (ValueError, TypeError) as e:
         raise Refused(str(e))
     regs = csrtarget.regs_from_map(p.bus.memory_map)
+    csrtarget.range_covers_width(ctx, regs, cfg["dw"], cfg)
     by = {R["name"]: R for R in regs}
     mode_r, in_r, out_r, sc_r = by["Mode"]["res"], by["Input"]["res"], by["Output"]["res"], by["SetClr"]["res"]
     S = lambda x: x.as_value() if hasattr(x, "as_value") else x
@@ -96,7 +97,7 @@ def check_config(ctx, cfg):
 
 def main(run: Run):
     cfgs = configs(run.tier, run.seed)
-    run.require(*(csrtarget.READ_CLAUSES + csrtarget.WRITE_CLAUSES + GLUE))
+    run.require(*(csrtarget.READ_CLAUSES + csrtarget.WRITE_CLAUSES + GLUE + ["range_covers_width"]))
     run.assumptions += BASE_ASSUMPTIONS_L2
     run.assumptions.append("setclr_code assumes at most one register write strobe per cycle (guaranteed by C05's w_stb_exact at the same bus)")
     run.functions["amaranth_soc.gpio.Peripheral.elaborate"] = "per-configuration (bounded: pin count, widths, input_stages); flattened with the real bridge/registers/field actions"
